@@ -105,6 +105,13 @@ func (c *HyperlaneController) HandlePacket(
 		return errorsmod.Wrap(err, "error extracting Hyperlane forwarding attributes")
 	}
 
+	err = c.ValidateForwarding(ctx, packet.TransferAttributes, attr)
+	if err != nil {
+		return core.ErrValidation.Wrapf("invalid Hyperlane forwarding: %s", err.Error())
+	}
+
+	// NOTE: the attributes are logged only after validation, converting a
+	// recipient shorter than 32 bytes into a HexAddress panics.
 	c.logger.Debug(
 		"forwarding attributes",
 		"token_id",
@@ -114,11 +121,6 @@ func (c *HyperlaneController) HandlePacket(
 		"recipient",
 		hyperlaneutil.HexAddress(attr.Recipient),
 	)
-
-	err = c.ValidateForwarding(ctx, packet.TransferAttributes, attr)
-	if err != nil {
-		return core.ErrValidation.Wrapf("invalid Hyperlane forwarding: %s", err.Error())
-	}
 
 	err = c.executeForwarding(
 		ctx,
